@@ -95,7 +95,7 @@ def expand(e, flat):
     return sx.with_children(e, [expand(c, flat) for c in sx.children(e)])
 
 
-def make_history(rng, length, focus=False, partial_points=False):
+def make_history(rng, length, focus=False, partial_points=False, reuse=False):
     """focus=True: 2-3 points that are revisited (one inside most domains, one on boundaries), a
     small pool, and operations that keep returning to the same objects: the shape that exposes a
     stale memo (A at p; something sharing A's objects at q; A at p again / fail, then retry)"""
@@ -202,6 +202,19 @@ def make_history(rng, length, focus=False, partial_points=False):
                 else:
                     ops.append(['dfcompexpr', s, v])
                     model_lines.append(('DEXPR' if sl['early'] else 'PEXPR') + ' %d %s' % (v, es))
+    if reuse:
+        # after every operation that returns an expression, sometimes feed that expression into a new one
+        ops2, ml2, nres = [], [], 0
+        for op, l in zip(ops, model_lines):
+            ops2.append(op)
+            ml2.append(l)
+            if op[0] in ('pexpr', 'dexpr', 'dfcompexpr', 'norm'):
+                nres += 1
+                for _ in range(rng.choice([1, 1, 2])):
+                    ops2.append(['reuse', rng.randrange(nres), rng.randrange(7), rng.randrange(len(pool)),
+                                 rng.choice([2, 3]), rng.randrange(npts)])
+                    ml2.append(None)
+        ops, model_lines = ops2, ml2
     h = {'pool': pool, 'points': [sx.point_sx(p) for p in pts], 'ops': ops}
     return h, model_lines
 
@@ -236,6 +249,27 @@ def history_check(ctx, prop):
             + widening_histories(rng, sizes(tier, 40, 500)) + budget_histories(rng, sizes(tier, 3, 20)):
         hs.append(h)
         mls.append(model_lines_for(h))
+    for k_ in range(sizes(tier, 90, 1500)):
+        h, ml = make_history(rng, rng.randint(4, 10), focus=(k_ % 2 == 0), reuse=True)
+        hs.append(h)
+        mls.append(ml)
+    for h in component_histories(rng, sizes(tier, 60, 1000)) + repeat_histories(rng, sizes(tier, 60, 1000)):
+        hs.append(h)
+        mls.append(model_lines_for(h))
+    for k_ in range(sizes(tier, 40, 600)):
+        # points whose coordinates are real numbers of another type (Fraction, Decimal): outcomes are not judged (the
+        # model's numbers are int / float), but the used-versus-fresh and nothing-was-altered oracles apply all the same
+        h, ml = make_history(rng, rng.randint(4, 10), focus=(k_ % 2 == 0))
+        ex = {}
+        for j, ps_ in enumerate(h['points']):
+            pt_, _ = sx.parse_point(sx.tokenize(ps_))
+            for i_, _v in pt_:
+                if rng.random() < 0.6:
+                    ex.setdefault(str(j), {})[str(i_)] = rng.choice([['F', 1, 3], ['F', -7, 2], ['F', 5, 1], ['D', '0.1'], ['D', '2.50'],
+                                                                     ['F', 22, 7], ['D', '-1.75']])
+        h['exotic'] = ex
+        hs.append(h)
+        mls.append([None] * len(ml))
     res = run_histories(hs)
     # model answers: pure functions of (expression, point)
     flat_lines = []
@@ -263,6 +297,7 @@ def history_check(ctx, prop):
             rep.stats['outcome_' + kind(o)] += 1
         if hi < 3:
             rep.sample({'pool': h['pool'], 'points': h['points'], 'ops': h['ops'][:8], 'outs': r['outs'][:8]})
+        provenance_failures(rep, h, r)
         if prop == 'C09':
             for f in r['fresh']:
                 if f['used'].startswith('WARN') or f['fresh'].startswith('WARN'):
@@ -299,6 +334,64 @@ def history_check(ctx, prop):
                                       'failing_input': False, 'history': trim_history(hs[hi], oi)})
     rep.stats.update({'op_' + k: v for k, v in ops_hist.items()})
     return rep
+
+
+def component_histories(rng, n):
+    """a Differential asked for the same component again and again, as a number and as an expression, by name:
+    component() must hand out an object that knows nothing about what earlier components were used for"""
+    out = []
+    for _ in range(n):
+        pool, flat = share_pool(rng, rng.randint(1, 2))
+        e = len(pool) - 1
+        ids = sx.var_ids(flat[e]) or [2]
+        pts = [[(i, gen.rnum(rng) if rng.random() < 0.7 else rng.choice([-3, -1, 2, 0.5, -2.5])) for i in sorted(set(ids + [2, 3]))]
+               for _k in range(2)]
+        v = rng.choice(ids)
+        early = int(rng.random() < 0.3)
+        ops = [['mkdiff', 0, e, early], ['dfcompat', 0, v, 0], ['dfcompexpr', 0, v], ['dfcompat', 0, v, 0], ['dfcompat', 0, v, 1],
+               ['dfat', 0, 1], ['dfcompexpr', 0, rng.choice(ids)], ['dfcompat', 0, v, 1], ['dfat', 0, 0]]
+        out.append({'pool': pool, 'points': [sx.point_sx(p) for p in pts], 'ops': ops})
+    return out
+
+
+def repeat_histories(rng, n):
+    """the same simplification / differentiation asked twice of the SAME object, for expressions holding a
+    variable-free sub-expression that cannot be evaluated (so that it cannot be folded and the attempt leaves whatever
+    it leaves on the object) or one that can; the second answer is compared with a never-used copy's"""
+    c = lambda v: ('C', v)      # noqa: E731
+    x, y = ('V', 2), ('V', 3)
+    bads = [('Log', ('Minus', c(1), c(1)), E), ('NthPow', ('NthRoot', ('Minus', c(2), c(6)), 2), 2),
+            ('Recip', ('Add', [c(1), c(-1)])), ('Divide', c(1), ('Mul', [c(0), c(3)])), ('Power', c(-2), c(0.5)),
+            ('Log', ('Neg', ('Neg', ('Neg', c(3)))), 2), ('NthRoot', ('Add', [c(-4), ('Mul', [c(1), c(0)])]), 2),
+            ('Sin', ('Log', ('Minus', c(2), c(2)), E)), ('Power', ('Minus', c(1), c(1)), ('Neg', ('Neg', c(-1)))),
+            ('NthPow', ('Add', [c(1), c(2)]), 2), ('Exp', ('Minus', c(3), c(1)), 2)]
+    out = []
+    for _ in range(n):
+        b1, b2 = rng.choice(bads), rng.choice(bads)
+        u = gen.rexpr(rng, rng.randint(1, 5), [2, 3], p_const=0.2)
+        e = rng.choice([('Mul', [x, b1]), ('Add', [('Sin', x), b1]), ('Mul', [('Sin', x), b1, y]), ('Power', x, b1),
+                        ('Minus', u, b1), ('Divide', b1, ('Add', [u, b2])), ('Mul', [u, ('Add', [b1, b2])]),
+                        ('Log', ('Add', [x, b1]), E), ('NthPow', ('Add', [u, b1]), 3), ('Add', [u, ('Mul', [b1, y])])])
+        v = rng.choice([2, 3])
+        early = int(rng.random() < 0.4)
+        ops = [['norm', 0], ['norm', 0], ['mkpartial', 0, 0, v, early], ['pexpr', 0], ['mkpartial', 1, 0, v, early], ['pexpr', 1],
+               ['mkdiff', 2, 0, early], ['dfcompexpr', 2, v], ['mkdiff', 3, 0, 1 - early], ['dfcompexpr', 3, v], ['norm', 0],
+               ['at', 0, 0], ['pat', 1, 0], ['at', 0, 0]]
+        out.append({'pool': [sx.to_sx(e)], 'points': [sx.point_sx([(2, 1.5), (3, 0.75)])], 'ops': ops})
+    return out
+
+
+def provenance_failures(rep, h, r):
+    """a 'reuse' operation found that an expression containing an object the library returned earlier simplifies,
+    differentiates or evaluates differently from the same expression built from constructors"""
+    for oi, o in enumerate(r.get('outs', [])):
+        if o.startswith('REUSED') or o == 'BUDGET':
+            rep.stats['reuse_' + ('compared' if o.startswith('REUSED') else 'budget')] += 1
+        if o.startswith('PROVENANCE'):
+            rep.oracle_failures.append({
+                'what': 'operation %d %s: an expression returned by the library, used as an operand of a new expression, '
+                        'behaves differently from the same expression built from constructors: %s' % (oi, h['ops'][oi], o[11:]),
+                'lines': [], 'kf': None, 'history': trim_history(h, oi)})
 
 
 def dag_rule_histories(rng, n):
@@ -486,7 +579,7 @@ def _expand_refs(s_, flat):
 
 
 def history_correspondence(ctx, rep, n, keep, maxlen=10, what='history', extra=None, disturb=(), partial_points=False,
-                           exact=False):
+                           exact=False, reuse=0):
     """histories restricted to the operation kinds in [keep] (plus the constructions they need); every
     operation's outcome against the pure model; a wrong kind or value is a concrete failing history.
     Operations of the kinds in [disturb] are executed too (they share objects and caches with the
@@ -528,6 +621,10 @@ def history_correspondence(ctx, rep, n, keep, maxlen=10, what='history', extra=N
         if any(l is not None for l in m2):
             hs.append(dict(h, ops=ops))
             mls.append(m2)
+    for k_ in range(reuse):
+        h, ml = make_history(rng, rng.randint(4, maxlen), focus=(k_ % 2 == 0), reuse=True)
+        hs.append(h)
+        mls.append(ml)
     res = run_histories(hs, fresh_oracle=False)
     flat_lines = [l for ml in mls for l in ml if l is not None]
     model = core.run_model(flat_lines)
@@ -570,6 +667,8 @@ def history_correspondence(ctx, rep, n, keep, maxlen=10, what='history', extra=N
                                               'history': trim_history(h, oi)})
         if 'error' in r:
             rep.oracle_failures.append({'what': 'history runner failed: ' + r['error'], 'lines': [], 'kf': None, 'history': h})
+        elif 'range' not in r:
+            provenance_failures(rep, h, r)
 
 
 def trim_history(h, upto):
@@ -580,7 +679,8 @@ def replay_history(payload):
     h = payload['history']
     r = run_histories([h])[0]
     print(json.dumps({'history': h, 'result': r}, indent=1)[:6000])
-    bad = r.get('fresh') or r.get('mutations') or r.get('final') or r.get('error')
+    bad = r.get('fresh') or r.get('mutations') or r.get('final') or r.get('error') \
+        or any(o.startswith('PROVENANCE') for o in r.get('outs', []))
     return 1 if bad else 0
 
 
@@ -1330,6 +1430,10 @@ def check_C18(ctx):
                       'PEARLY %d %s %s' % (v, ps, es), 'DEARLYALL %s %s' % (ps, es), 'DEARLYAT %d %s %s' % (v, ps, es)]
         lines += ['SYNREV %s' % es, 'PEXPR %d %s' % (v, es), 'DEXPR %d %s' % (v, es), 'NORM %s' % es, 'STEP %s' % es,
                   'VARS %s' % es, 'SHOW %s' % es]
+        # the differentiation variable given as a Variable object instead of its name: the same question
+        ps0 = sx.point_sx(perms[0])
+        lines += ['VO FWD %d %s %s' % (v, ps0, es), 'VO PEARLY %d %s %s' % (v, ps0, es), 'VO DEARLYAT %d %s %s' % (v, ps0, es),
+                  'VO PEXPR %d %s' % (v, es), 'VO DEXPR %d %s' % (v, es)]
         # failing calls: a coordinate missing and/or a point outside the domain; WHICH error surfaces must not
         # depend on the order in which the variable-name set is visited
         q = [(k, rng.choice([-1, 0, -0.5, 2])) for k in ids]
@@ -1390,6 +1494,17 @@ def check_C18(ctx):
                                                 '%s when asked in reverse order' % (base[i][:120], rev_out[i][:120]),
                                         'lines': [(l, base[i], model[i])], 'kf': None})
     rep.stats['processes_reverse_order'] = 1
+    where = {}
+    for i, l in enumerate(lines):
+        where.setdefault(l, i)
+    for i, l in enumerate(lines):
+        if l.startswith('VO ') and l[3:] in where:
+            j = where[l[3:]]
+            rep.stats['variable_spellings_compared'] += 1
+            if base[i] != base[j] and not base[i].startswith('ERROR timeout') and not base[j].startswith('ERROR timeout'):
+                rep.oracle_failures.append({'what': 'outcome depends on whether the variable is given by name or as a Variable object: '
+                                                    '%s by name, %s as an object' % (base[j][:120], base[i][:120]),
+                                            'lines': [(l, base[i], model[i]), (lines[j], base[j], model[j])], 'kf': None})
     rep.cases = len(lines)
     rep.distinct = set(lines)
     digests = {str(s): hashlib.sha256('\n'.join(r).encode()).hexdigest()[:16] for s, r in runs.items()}
@@ -1432,7 +1547,7 @@ def check_C18(ctx):
     # "the same expression and point always produce the same outcome": also on objects that were used before
     history_correspondence(ctx, rep, sizes(tier, 120, 2500),
                            ('at', 'located', 'pat', 'dat', 'dfat', 'dfcompat', 'pexpr', 'dexpr', 'dfcompexpr', 'norm'),
-                           maxlen=sizes(tier, 10, 24), what='sequence', disturb=(), exact=True)
+                           maxlen=sizes(tier, 10, 24), what='sequence', disturb=(), exact=True, reuse=sizes(tier, 90, 1500))
     return rep
 
 
